@@ -3,7 +3,9 @@
    for all real arguments (the `if self.mean is None` block initialises the state the model starts from; the
    ZeroDivisionError handler is the case wcount + weight = 0, excluded here). *)
 From Coq Require Import Reals Lra.
-From TV Require Import Num ListNum Model_C18.
+From Coq Require Import List Lia.
+From TV Require Import Num ListNum Model_C18 Proofs_C18.
+Import ListNotations.
 Local Open Scope R_scope.
 (* GENERATED *)
 
@@ -12,3 +14,41 @@ Lemma tie_ov_update : forall (n : nat) (count wcount wcount2 mean0 M2 value weig
   let s' := @ov_update R RNum {| cnt := n; wc := wcount; mean := mean0; m2 := M2 |} (value, weight) in
   gen_ov_update count wcount wcount2 mean0 M2 value weight = (count + 1, wc s', mean s', m2 s') /\ cnt s' = S n.
 Proof. intros. unfold gen_ov_update, ov_update in *. subst s'. cbn. rnum. split; reflexivity. Qed.
+
+
+(* The update iterated over a whole sample list, as `for value, weight in samples: ov.update(value, weight)` does,
+   from the state reset() / the first-call initialisation leaves (count 0, sum of weights 0, mean 0, M2 0): for EVERY
+   list of samples with positive weights the code's state is the model's, hence (C18_streaming_is_twopass) its mean and
+   M2 are the two-pass weighted mean and sum of squared deviations. *)
+Definition code_step (st : R * R * R * R) (xw : R * R) : R * R * R * R :=
+  match st with (c, w, m, q) => gen_ov_update c w 0 m q (fst xw) (snd xw) end.
+Definition code_run (l : list (R * R)) : R * R * R * R := fold_left code_step l (0, 0, 0, 0).
+
+Lemma tie_ov_fold : forall (l : list (R * R)) (s : ov) (c : R),
+  pos_weights l -> 0 <= wc s ->
+  fold_left code_step l (c, wc s, mean s, m2 s) =
+  (c + INR (length l), wc (fold_left (@ov_update R RNum) l s), mean (fold_left (@ov_update R RNum) l s),
+   m2 (fold_left (@ov_update R RNum) l s)).
+Proof.
+  induction l as [|[x w] l IH]; intros s c Hp Hw.
+  - cbn. f_equal. f_equal. f_equal. lra.
+  - inversion Hp as [|p q Hpw Hpl]; subst. cbn [snd] in Hpw.
+    cbn [fold_left]. unfold code_step at 2. cbn [fst snd].
+    destruct (tie_ov_update (cnt s) c (wc s) 0 (mean s) (m2 s) x w) as [E _]; [lra|].
+    destruct s as [n0' wc0 mean0 m20]. cbn [cnt wc mean m2] in *. rewrite E.
+    rewrite (IH _ (c + 1) Hpl).
+    + cbn [length]. rewrite S_INR. f_equal. f_equal. f_equal. lra.
+    + unfold ov_update. cbn [wc]. rnum. lra.
+Qed.
+
+Lemma tie_code_streaming_is_twopass : forall (l : list (R * R)), l <> [] -> pos_weights l ->
+  match code_run l with
+  | (c, w, m, q) => c = INR (length l) /\ m = @twopass_mean R RNum l /\ q = @twopass_m2 R RNum l
+  end.
+Proof.
+  intros l Hne Hp. unfold code_run.
+  pose proof (tie_ov_fold l (@ov_init R RNum) 0 Hp) as H. cbn [ov_init wc mean m2] in H.
+  change (@n0 R RNum) with 0 in H. rewrite H by lra.
+  destruct (online_is_twopass l Hne Hp) as [Hm Hq]. unfold ov_run in *.
+  split; [lra|]. split; assumption.
+Qed.
